@@ -279,18 +279,13 @@ Qed.
 Print Assumptions byron_addr_dec_enc.
 
 (* the path codec: CBOR indefinite-length array under ChaCha20-Poly1305 with the fixed nonce *)
-Theorem byron_path_codec : forall a, byron_laws a -> forall key path, path <> [] -> Forall (fun i => i < 2 ^ 32) path ->
+Theorem byron_path_codec : forall a, byron_laws a -> forall key path, Forall (fun i => i < 2 ^ 32) path ->
   byron_decrypt_path a key (byron_encrypt_path a key path) = Ok path.
 Proof.
   intros a (B1 & B2 & B3 & B4 & B5 & _).
   exact (Lemmas.AddrAdaByron.decrypt_encrypt_path (chacha_enc a) (chacha_dec a) B5).
 Qed.
 Print Assumptions byron_path_codec.
-
-(* ... which is empty-path intolerant: Encode([]) has two bytes, Decode demands three *)
-Theorem byron_empty_path_not_recoverable : indef_decode (indef_encode []) = Err ValueError.
-Proof. exact Lemmas.CborEnc.indef_empty_not_recoverable. Qed.
-Print Assumptions byron_empty_path_not_recoverable.
 
 (* recovering the path from a legacy wallet's own address returns the hardened indices used *)
 Theorem byron_path_recover : forall o a, byron_laws a -> forall master first second addr,
